@@ -89,7 +89,7 @@ def gen_flowir_package(rr, idx):
         if fan_in and i < 2:
             refs = []
         if fan_in and i == 2:
-            refs = [('%s:ref' % p['name']) if rr.random() < 0.5 else ('stage0.%s:ref' % p['name'])
+            refs = [('%s:ref' % p['name']) if (stage == 0 and rr.random() < 0.5) else ('stage0.%s:ref' % p['name'])
                     for p in doc['components'][:2]]
             rr.shuffle(refs)
         in_repl = any(replicated.get(r.split(':')[0].split('.')[-1]) for r in refs)
